@@ -7,6 +7,7 @@ macro_rules! inst {
             pub type Pid = $t;
             include!("conn_body.rs");
             include!("conn_gen.rs");
+            include!("conn_duo.rs");
         }
     };
 }
@@ -115,4 +116,23 @@ pub fn replay(args: &[String]) -> String {
     } else {
         c16::replay_case(&hdr, &c16::ops_from_tokens(&groups))
     }
+}
+
+pub fn generate_duo(seed: u64, n: usize, out: &mut Vec<String>, stats: &mut Stats) {
+    let mut rng = Rng::new(seed ^ 0xD0_0D_01);
+    for _ in 0..n {
+        let cs = rng.next() >> 3;
+        let mut r = Rng::new(cs);
+        let (line, nops) = c16::duo_case(cs, &mut r, &mut stats.inner);
+        stats.cases += 1;
+        stats.total_ops += nops;
+        out.push(line);
+    }
+}
+
+/// replay of one C01 case: the case seed re-runs the same scheduler on the current implementation
+pub fn replay_duo(case_seed: u64) -> String {
+    let mut st = c16::CaseStats::new();
+    let mut r = Rng::new(case_seed);
+    c16::duo_case(case_seed, &mut r, &mut st).0
 }
